@@ -818,12 +818,29 @@ fn gen_handover(r: &mut Rng, g: &GenCfg, ops: &mut Vec<String>) -> u64 {
         if all || places.contains(&4) { t.push((4, Val::Int(7))); t.push((5, Val::Int(7))); } else { t.push((4, Val::Int(9))); t.push((5, Val::Int(9))); }
         t
     };
-    if r.chance(2, 3) { ops.push(line(r, "add", &taken)); next += 1; } else {
+    if r.chance(2, 3) {
+        ops.push(line(r, "add", &taken));
+        let b = next;
+        next += 1;
+        // a second hop before the power loss: the new holder passes the scalar value on to yet another new document
+        if (by_remove || places.contains(&1)) && r.chance(1, 4) {
+            ops.push(format!("upd {b} 1=i27"));
+            ops.push(line(r, "add", &[(1, Val::Int(20)), (2, Val::Null), (3, Val::Arr(vec![])), (4, Val::Int(6)), (5, Val::Int(6))]));
+            next += 1;
+        }
+    } else {
         // among flushed documents: document 2 takes them by an update (both sides only have intents)
         ops.push(format!("upd 2 {}", join(taken.iter().map(|(f, v)| format!("{f}={}", v.show())), " ")));
     }
     if r.chance(1, 3) { ops.push(line(r, "add", &[(1, Val::Int(26)), (2, Val::Null), (3, Val::Arr(vec![])), (4, Val::Int(8)), (5, Val::Int(1))])); next += 1; }
     if r.chance(1, 4) { ops.push("upd 2 8=t1".into()); }
+    // an unflushed document that is also updated: it has an intent *and* lies in the repair-scan window, above
+    // another unflushed document
+    if r.chance(1, 3) {
+        ops.push(line(r, "add", &[(1, Val::Int(28)), (2, Val::Null), (3, Val::Arr(vec![])), (4, Val::Int(5)), (5, Val::Int(5))]));
+        ops.push(format!("upd {next} {}", if r.chance(1, 2) { "1=i29" } else { "8=t2" }));
+        next += 1;
+    }
     ops.push("crash".into());
     ops.push("check".into());
     ops.push(line(r, "add", &taken)); // a contender for the handed-over values
